@@ -166,7 +166,23 @@ func c06OptionsMonitor(c *core.Ctx) {
 	}
 }
 
+// c06PrimeEncodings: before anything else in the process, an operation whose encoding object sets nothing but
+// "explode: false" is validated and used once. What one encoding says must stay with that encoding: every later form
+// body of the shard is judged as before.
+func c06PrimeEncodings(c *core.Ctx) {
+	schema := gen.S{"type": "object", "properties": gen.S{"ids": gen.S{"type": "array", "items": gen.S{"type": "integer"}}, "tags": gen.S{"type": "array", "items": gen.S{"type": "string"}}}}
+	d, err := loadDoc(c06Doc(gen.S{"application/x-www-form-urlencoded": gen.S{"schema": schema, "encoding": gen.S{"ids": gen.S{"explode": false}}}}, true))
+	if err != nil {
+		return
+	}
+	if router, err := newGorilla(d); err == nil {
+		c06Validate(router, "application/x-www-form-urlencoded", []byte("ids=1,2"), &openapi3filter.Options{})
+		c.Cover("workload", "an encoding with only explode:false used first")
+	}
+}
+
 func runC06(c *core.Ctx) {
+	c06PrimeEncodings(c)
 	idx := 0
 	// ---- part A: selection ----
 	nk := len(c06Keys)
